@@ -8,6 +8,7 @@ import (
 	"os"
 	"path/filepath"
 	"runtime"
+	"runtime/debug"
 	"runtime/pprof"
 	"strconv"
 	"strings"
@@ -31,6 +32,9 @@ func main() {
 	sub := os.Args[1]
 	switch sub {
 	case "check":
+		// a soft limit: the collector returns memory to the system instead of letting the resident
+		// set follow the garbage (damaged length fields make the code under test allocate GiBs)
+		debug.SetMemoryLimit(12 << 30)
 		os.Exit(runCheck(os.Args[2:]))
 	default:
 		if fn, ok := subcommands[sub]; ok {
